@@ -65,6 +65,7 @@ pub struct Faithful {
     flush_due: Option<u64>,
     cand_key: Option<(usize, usize)>,
     cand_cache: Vec<u64>,
+    opened: u32,
     session_loss_next: bool,
     pub spin: Vec<String>,
     pub stranded: Option<String>,
@@ -84,7 +85,7 @@ fn ping_deadline_ms(cfg: &SimCfg) -> u64 {
 
 impl Faithful {
     pub fn new(cfg: &SimCfg, eager: bool) -> Faithful {
-        Faithful { sim: Sim::new(cfg), sched: Vec::new(), ack_delay: 0, ping_delay_kind: 0, frag: usize::MAX, eager, write_delay: 0, flush_due: None, cand_key: None, cand_cache: Vec::new(), session_loss_next: false, spin: Vec::new(), stranded: None, steps: 0, step_bound_hit: false }
+        Faithful { sim: Sim::new(cfg), sched: Vec::new(), ack_delay: 0, ping_delay_kind: 0, frag: usize::MAX, eager, write_delay: 0, flush_due: None, cand_key: None, cand_cache: Vec::new(), opened: 0, session_loss_next: false, spin: Vec::new(), stranded: None, steps: 0, step_bound_hit: false }
     }
 
     fn ping_delay(&self) -> Option<u64> {
@@ -140,6 +141,13 @@ impl Faithful {
                 continue;
             }
             if self.sim.conn.is_none() {
+                // a history that keeps losing its connection for ever (e.g. a keep-alive that fires on every new
+                // connection) must end: after 150 connections the run stops and the monitors judge what happened
+                if self.opened >= 150 {
+                    self.step_bound_hit = true;
+                    return;
+                }
+                self.opened += 1;
                 self.sim.do_open(30_000);
                 continue;
             }
@@ -779,6 +787,21 @@ pub fn m14(ix: &Index, end_time: u64) -> Vec<Violation> {
     let cfg = ix.cfg;
     let k_ms = keep_alive_ms(cfg);
     let ping_window = ping_deadline_ms(cfg);
+    // a keep-alive failure is only ever justified by a PINGREQ of the same connection that went unanswered: a
+    // connection that is failed for keep-alive without having sent a PINGREQ at all (e.g. because of a deadline left
+    // over from an earlier connection) times out a live peer
+    for (conn, c) in &ix.conns {
+        for e in &tr.evs {
+            if let Ev::Call { kind: CallKind::Service, result: Err(EK::ConnectionClosed), msg, t, conn: Some(cc), .. } = e {
+                if cc == conn && msg.contains("keep alive") {
+                    let pinged = c.pkts.iter().any(|&p| matches!(tr.emitted[p].pkt, rf::Packet::Pingreq) && tr.emitted[p].t <= *t);
+                    if !pinged {
+                        out.push(Violation::new("C14.timeout_without_ping", "the connection was failed for keep-alive although no PINGREQ had been sent on it", format!("conn {} failed at {}", conn, t)));
+                    }
+                }
+            }
+        }
+    }
     for (conn, c) in &ix.conns {
         let t0 = match c.connack_ok_t {
             Some(t) => t,
@@ -902,6 +925,9 @@ impl Property for C14 {
         let panicked = f.sim.tr.evs.iter().any(|e| matches!(e, Ev::Panic { .. }));
         if !panicked && !f.step_bound_hit && f.spin.is_empty() {
             violations.extend(m14(&ix, f.sim.now));
+        } else if !panicked {
+            // the run was cut short (e.g. an endless reconnect cycle): the pure safety rule still applies to what happened
+            violations.extend(m14(&ix, f.sim.now).into_iter().filter(|v| v.rule == "C14.timeout_without_ping"));
         }
         for e in &f.sim.tr.evs {
             if let Ev::Panic { msg, loc, kind, .. } = e {
